@@ -336,6 +336,39 @@ func runTombstone(p *core.Prog) *core.Result {
 				}
 			}
 		})
+		// the loop advances through item.iterNext: it must not clear that link of the current item
+		// before reading it (only the predecessor's link is cut)
+		fNext, errN := p.Field(core.GojaPath, "mapEntry", "iterNext")
+		if errN != nil {
+			return res.Fail(errN)
+		}
+		var cut ssa.Instruction
+		core.AllInstrs(clear, func(in ssa.Instruction) {
+			st, isSt := in.(*ssa.Store)
+			if !isSt {
+				return
+			}
+			fa, isFa := st.Addr.(*ssa.FieldAddr)
+			if !isFa || core.FieldOf(fa) != fNext {
+				return
+			}
+			// base is the loop variable itself (a phi that is advanced by loading its own iterNext)
+			if ph, isPhi := core.Origin(fa.X).(*ssa.Phi); isPhi {
+				for _, e := range ph.Edges {
+					if ld, isLd := core.Origin(e).(*ssa.UnOp); isLd {
+						if nfa, isN := ld.X.(*ssa.FieldAddr); isN && core.FieldOf(nfa) == fNext && core.Origin(nfa.X) == ssa.Value(ph) {
+							cut = in
+						}
+					}
+				}
+			}
+		})
+		if cut != nil {
+			ok = false
+			res.Bad("(*orderedMap).clear:walks the whole list", p.Pos(cut.Pos()), "the loop clears the iterNext link of the entry it is standing on before advancing through it: only the first entry is tombstoned, and an iterator parked further down keeps yielding entries of the cleared map")
+		} else {
+			res.OK("(*orderedMap).clear:walks the whole list", p.Pos(clear.Pos()), "the advancing link of the current entry is not cut inside the loop")
+		}
 		if ok {
 			res.OK("(*orderedMap).clear:tombstones every entry", p.Pos(clear.Pos()), "key = nil inside the loop over the entries")
 		} else {
